@@ -35,6 +35,7 @@ ARRAY_DETS = {"ADWIN": 20, "CUSUM": 20, "PageHinkley": 20, "KdqTreeStreaming": 1
               "CDBD": 16, "NNDVI": 12}
 LABEL_DETS = {"DDM": 10, "EDDM": 10, "STEPD": 10, "LinearFourRates": 4, "ADWINAccuracy": 8}
 CONTAINERS = ["C", "F", "view", "df", "df_mixed"]
+STREAM_1D = ["nd1", "rowview", "series"]   # one observation in a 1-D container (streaming detectors only)
 
 
 def scenarios(tier):
@@ -71,13 +72,13 @@ def gen(rng, scenario, tier):
         knd = rng.choice(["gauss", "ramp"]) if name == "CUSUM" else None
         xs, _ = workload.stream_values(rng, rng.randint(15, 40), kind=knd, drift_rate=0.1)
         for x in xs:
-            ev.append([[x], rng.choice(CONTAINERS[:4]), np_seed(rng)])
+            ev.append([[x], rng.choice(CONTAINERS[:4] + STREAM_1D), np_seed(rng)])
     else:
         d = adapters.n_features(rng, name)
         n = rng.randint(28, 40) if name == "PCACD" else rng.randint(15, 40)
         xs, _ = workload.mv_stream(rng, n, d, drift_rate=0.08)
         for x in xs:
-            ev.append([x, rng.choice(CONTAINERS), np_seed(rng)])
+            ev.append([x, rng.choice(CONTAINERS + STREAM_1D), np_seed(rng)])
     return {"det": name, "cfg": cfg, "events": ev}
 
 
@@ -85,6 +86,14 @@ def gen(rng, scenario, tier):
 def build(rows, tag):
     """rows: list of rows.  Returns (object to pass, scribble function)."""
     arr = np.array(rows, dtype=float)
+    if tag == "nd1":
+        return arr[0].copy()
+    if tag == "rowview":
+        base = np.full((3, arr.shape[1]), -7.5)
+        base[1] = arr[0]
+        return base[1]                      # a row view of the caller's 2-D buffer
+    if tag == "series":
+        return pd.Series(arr[0].copy(), index=NAMES[: arr.shape[1]])
     if tag == "C":
         a = np.ascontiguousarray(arr)
     elif tag == "F":
@@ -104,6 +113,8 @@ def build(rows, tag):
 def scribble(obj):
     if isinstance(obj, pd.DataFrame):
         obj.iloc[:, :] = 999999
+    elif isinstance(obj, pd.Series):
+        obj.iloc[:] = 999999.0
     elif isinstance(obj, np.ndarray):
         obj[...] = 1e6
     elif isinstance(obj, list):
@@ -114,6 +125,8 @@ def scribble(obj):
 def snapshot(obj):
     if isinstance(obj, pd.DataFrame):
         return ("df", obj.copy(deep=True), list(obj.dtypes.astype(str)), list(obj.columns), list(obj.index))
+    if isinstance(obj, pd.Series):
+        return ("series", obj.copy(deep=True), str(obj.dtype), list(obj.index))
     if isinstance(obj, np.ndarray):
         return ("nd", obj.copy(order="K"), str(obj.dtype), obj.shape, obj.strides, obj.flags["C_CONTIGUOUS"], obj.flags["F_CONTIGUOUS"])
     return ("py", copy.deepcopy(obj))
@@ -123,6 +136,8 @@ def unchanged(snap, obj):
     if snap[0] == "df":
         return (isinstance(obj, pd.DataFrame) and obj.equals(snap[1]) and list(obj.dtypes.astype(str)) == snap[2]
                 and list(obj.columns) == snap[3] and list(obj.index) == snap[4])
+    if snap[0] == "series":
+        return isinstance(obj, pd.Series) and obj.equals(snap[1]) and str(obj.dtype) == snap[2] and list(obj.index) == snap[3]
     if snap[0] == "nd":
         return (isinstance(obj, np.ndarray) and str(obj.dtype) == snap[2] and obj.shape == snap[3] and obj.strides == snap[4]
                 and obj.flags["C_CONTIGUOUS"] == snap[5] and obj.flags["F_CONTIGUOUS"] == snap[6]
